@@ -31,7 +31,7 @@ RULE = ("ensemble kinds GridScan / LineScan (endpoint on/off) / CustomScan / CTF
 CLAUSES = ["block-grid", "eager-slices", "members-exactly-once:eager", "members-exactly-once:lazy", "members-order:eager",
            "members-order:lazy", "axes-metadata:eager", "axes-metadata:lazy", "lazy-equals-eager", "block-type"]
 QUICK = dict(n=420, time=40)
-THOROUGH = dict(n=16000, time=240, shards=16)
+THOROUGH = dict(n=128000, time=480, shards=16)
 
 
 # --------------------------------------------------------------------------- generation
